@@ -181,6 +181,9 @@ func (c *Check) Finish(verifDir string, only string) int {
 	for k, v := range c.Extra {
 		cov[k] = v
 	}
+	if c.Assumptions == nil {
+		c.Assumptions = []string{"see coverage.trusted_base and coverage.explanation"}
+	}
 	ev := map[string]interface{}{
 		"property_id": c.Prop,
 		"tier":        c.Tier,
